@@ -64,4 +64,35 @@ def jsPlace (people points i j k l : Nat) : Nat := i * (people * points) + j * p
 def JSBody.coord (b : JSBody) (i j k l dimIndex : Nat) : F32 := b.data.getD (jsPlace b.people b.points i j k l * b.dims + dimIndex) 0
 def JSBody.confidence (b : JSBody) (i j k l : Nat) : F32 := b.conf.getD (jsPlace b.people b.points i j k l) 0
 
+/-! ## parser.ts, v0.0 body (`getBodyParserV0_0`) -/
+
+/-- a person as `binary-parser` returns it: the id and, per component, its points, each point the values of its format letters -/
+structure JSPersonV00 where
+  id : Nat
+  comps : List (List (List F32))
+deriving DecidableEq, Repr
+
+/-- one point: a `floatle` per letter of the format -/
+def jsPointV00 (len : Nat) : Prog (List F32) := .unpack (len * 4) fun b => .ret (getF32s len b)
+
+def jsCompsV00 : List Comp → Prog (List (List (List F32)))
+  | [] => .ret []
+  | c :: cs => Prog.bind (Prog.many (jsPointV00 c.format.length) c.points.length) fun pts => Prog.bind (jsCompsV00 cs) fun rest => .ret (pts :: rest)
+
+def jsPersonV00 (comps : List Comp) : Prog JSPersonV00 :=
+  Prog.bind rdU16 fun id => Prog.bind (jsCompsV00 comps) fun cs => .ret ⟨id, cs⟩
+
+def jsFrameV00 (comps : List Comp) : Prog (List JSPersonV00) := Prog.bind rdU16 fun n => Prog.many (jsPersonV00 comps) n
+
+/-- `.seek(headerLength).uint16("fps").uint16("_frames").array("frames", …)` -/
+def jsBodyV00 (h : Header) : Prog (Nat × List (List JSPersonV00)) :=
+  Prog.bind rd2U16 fun ff => Prog.bind (Prog.many (jsFrameV00 h.comps) ff.2) fun frames => .ret (ff.1, frames)
+
+/-- `parsePose` on a file whose version switch says 0: header, header length, fps, frames -/
+def jsParseV00 (b : Bytes) : Option (Header × Nat × Nat × List (List JSPersonV00)) :=
+  match runBR rdHeaderRaw b 0 with
+  | none => none
+  | some (h, e) => (runBR (jsBodyV00 h) b e).map fun r => (h, e, r.1.1, r.1.2)
+
+
 end PoseVerif
